@@ -425,6 +425,45 @@ func genObjUnmarshal(g *G, tier string, emit func(string)) {
 		}
 		rec(nil)
 	}
+	// (4b) under an ignored struct key: every short token sequence over containers, closers and scalars
+	// (well-formed or not), then the rest of the struct
+	{
+		target := fixedTargets()[7]
+		alpha := []string{"[-1", "]", "{-1", "}", "[1", "{1", "i1", "s6b", "n"}
+		var rec func(prefix []string)
+		rec = func(prefix []string) {
+			for _, a := range alpha {
+				seq := append(append([]string{}, prefix...), a)
+				emit(target + " | {-1 s69676e " + strings.Join(seq, " ") + " }")
+				emit(target + " | {-1 s69676e " + strings.Join(seq, " ") + " s6b s61 }")
+				emit(target + " | {2 s6b s61 s69676e " + strings.Join(seq, " ") + " }")
+				if len(seq) < 3 {
+					rec(seq)
+				}
+			}
+		}
+		rec(nil)
+	}
+	// (4c) a tagged transform type whose serial form is untyped, holding values of its own type (same tag)
+	// directly inside the containers of its serial form
+	{
+		hdr := "(env (22 a)) (atlas 0 (e (st 22) 40 (tr 9 a))) "
+		for _, tgt := range []string{"a", "(st 22)", "(sl (st 22))", "(mp s a)"} {
+			for _, body := range []string{
+				"#40[-1 #40i1 ]", "#40[2 #40i1 #40s61 ]", "#40[-1 #40[-1 #40s61 ] ]", "#40{-1 s6b #40i1 }", "#40{1 s6b #40[1 #40n ] }",
+				"#40[-1 i1 #40i1 ]", "#40[-1 #40i1 i1 ]", "#40[-1 #41i1 ]", "#40[-1 #40{-1 s6b #40i2 s6a i3 } ]",
+			} {
+				switch tgt {
+				case "(sl (st 22))":
+					emit(hdr + tgt + " | [-1 " + body + " " + body + " ]")
+				case "(mp s a)":
+					emit(hdr + tgt + " | {-1 s78 " + body + " s79 " + body + " }")
+				default:
+					emit(hdr + tgt + " | " + body)
+				}
+			}
+		}
+	}
 	// (5) numbers into every integer kind: boundaries +-2 (quick) and a sweep (thorough)
 	kinds := []string{"i8", "i16", "i32", "i64", "i", "u8", "u16", "u32", "u64", "u", "up", "f32", "f64", "a", "(nm 1 i8)", "(nm 2 u16)"}
 	var nums []string
